@@ -94,7 +94,8 @@ func newMachine(rt *rapid.T, o machineOpts) *machine {
 			chainID = sources[0].ChainID
 			m.label("same-chain-id")
 		}
-		sources = append(sources, &SourceCfg{Name: fmt.Sprintf("src%d", i+1), ChainID: chainID, Batch: batch, Conc: conc, Node: sim.NewNode(sim.NewChain())})
+		sources = append(sources, &SourceCfg{Name: fmt.Sprintf("src%d", i+1), ChainID: chainID, Batch: batch, Conc: conc, Node: sim.NewNode(sim.NewChain()),
+			TwoURLs: rapid.IntRange(0, 3).Draw(rt, "twourls") == 0})
 		switch {
 		case batch < conc:
 			m.label("batch<conc")
